@@ -473,6 +473,12 @@ func (c *Ctx) ruleOptionalLast(rule string) int {
 							cut[ir.Edge{From: p.Index, To: bi}] = true
 						}
 					}
+					// the edge on which the read itself failed is not a path to success
+					for _, ce := range ir.CondEdges(fn) {
+						if ce.Cond == ssa.Value(call) && !ce.Truth {
+							cut[ce.Edge] = true
+						}
+					}
 					seen, _ := ir.Reach(fn, b, cut)
 					for _, r := range acceptingReturns(fn) {
 						if seen[r.Block().Index] {
